@@ -16,6 +16,35 @@ def mismatches(txt):
     return out
 
 
+def validate_split(ctx, fam, mod, trace, evs, parts):
+    """Validate a trace made of independent segments (each starts with a cfg/lb event = reset) as `parts` TLC runs side
+    by side; line numbers of the reports are mapped back to the whole trace."""
+    if parts <= 1:
+        return vlib.validate_trace(ctx, fam, mod, mod + ".cfg", trace, timeout=1200)
+    starts = [i for i, e in enumerate(evs) if e["ev"] in ("cfg", "lb")]
+    if len(starts) < parts * 2:
+        return vlib.validate_trace(ctx, fam, mod, mod + ".cfg", trace, timeout=1200)
+    lines = open(trace).read().splitlines()
+    cuts = [starts[(len(starts) * k) // parts] for k in range(parts)] + [len(lines)]
+    cuts[0] = 0
+    from concurrent.futures import ThreadPoolExecutor
+    def one(k):
+        p = "%s.part%d" % (trace, k)
+        with open(p, "w") as fh:
+            fh.write("\n".join(lines[cuts[k]:cuts[k + 1]]) + "\n")
+        return vlib.validate_trace(ctx, fam, mod, mod + ".cfg", p, timeout=1200)
+    with ThreadPoolExecutor(max_workers=parts) as ex:
+        rs = list(ex.map(one, range(parts)))
+    out = dict(accepted=all(r["accepted"] for r in rs), matched=None, text="", distinct=sum(r["distinct"] for r in rs),
+               generated=sum(r["generated"] for r in rs), total=len(lines))
+    for k, r in enumerate(rs):
+        off = cuts[k]
+        out["text"] += re.sub(r'<<"MISMATCH", (\d+), ', lambda m: '<<"MISMATCH", %d, ' % (int(m.group(1)) + off), r["text"]) + "\n"
+        if r["matched"] is not None and r["matched"] < cuts[k + 1] - cuts[k] and out["matched"] is None:
+            out["matched"] = r["matched"] + off
+    return out
+
+
 def run(ctx):
     q = ctx.quick()
     # ---------- 1. design level: TLC on the specs (intended design must satisfy the properties)
@@ -34,14 +63,29 @@ def run(ctx):
     if r["ok"]:
         raise vlib.Inconclusive("Edf model does not reject the DeadlinePlusWeight defect")
     edf_cases = os.path.join(ctx.tmp, "edf_cases.jsonl")
+    # TLC enumerates the weight vectors sorted (the scheduler model is symmetric in the host names); the code under
+    # test need not be (storage order of the hosts, first/last comparisons, insertion order of equal deadlines): every
+    # vector is replayed in every distinct order of its hosts (<= 3 hosts) or in identity, reverse, the rotations and
+    # seeded shuffles (more hosts)
+    import itertools, random
+    rng = random.Random(ctx.seed)
     seen = set()
     with open(edf_cases, "w") as fh:
         for c in vlib.read_jsonl(edf_raw):
-            key = tuple(c["cw"])
-            if key in seen:
+            base = tuple(c["cw"])
+            if base in seen:
                 continue
-            seen.add(key)
-            fh.write(json.dumps({"cw": {"h%d" % (i + 1): w for i, w in enumerate(c["cw"])}}) + "\n")
+            seen.add(base)
+            n = len(base)
+            if n <= 3:
+                orders = sorted(set(itertools.permutations(base)))
+            else:
+                orders = [base, base[::-1]] + ([] if q else [base[i:] + base[:i] for i in range(1, n)])
+                for _ in range(1 if q else 8):
+                    x = list(base); rng.shuffle(x); orders.append(tuple(x))
+                orders = sorted(set(orders))
+            for o in orders:
+                fh.write(json.dumps({"cw": {"h%d" % (i + 1): w for i, w in enumerate(o)}}) + "\n")
 
     # ---------- 2. real code: record
     binary = vlib.go_build("c06")
@@ -55,7 +99,7 @@ def run(ctx):
     for fam, mod, trace, part in (("router", "WeightedClusterTrace", wc_trace, "wc"),
                                   ("cluster", "EdfTrace", edf_trace, "edf")):
         evs = vlib.read_jsonl(trace)
-        v = vlib.validate_trace(ctx, fam, mod, mod + ".cfg", trace, timeout=1200)
+        v = validate_split(ctx, fam, mod, trace, evs, 8 if part == "edf" else 1)
         ncalls = sum(1 for e in evs if e["ev"] in ("ret", "choose"))
         ctx.cov["traces_validated_against_impl"] += sum(1 for e in evs if e["ev"] in ("cfg", "lb"))
         ctx.cov["evaluations"] += ncalls
@@ -86,8 +130,8 @@ def run(ctx):
                                                context=evs[max(0, line - 6):line]))
     ctx.cov["distinct_nontrivial"] = ctx.cov["evaluations"]
     ctx.cov["rule"] = ("wc: every weight map TLC enumerates (subsets of clusters x weights incl. 0) x every draw in 0..total-1 x %d "
-                       "repetitions (map iteration order varies per call; the visit hook records it); edf: every sorted configured "
-                       "weight vector incl. clamped 0 and 200, 3*sum(w) consecutive ChooseHost calls on the real WRR balancer; "
+                       "repetitions (map iteration order varies per call; the visit hook records it); edf: every configured "
+                       "weight vector incl. clamped 0 and 200 in every host order (<= 3 hosts; identity, reverse, a seeded shuffle and in the thorough tier the rotations beyond), 3*sum(w) consecutive ChooseHost calls on the real WRR balancer; "
                        "a case is one real call" % reps)
     ctx.cov["exhaustive"] = True
     ctx.assumptions += ["all hosts healthy for the lag bound (C05 covers unhealthy members)",
